@@ -38,7 +38,7 @@ for d in sorted(glob.glob('seeded/C*-*')):
 caught=sum(1 for r in rows if 'caught**' in r)
 own=sum(1 for r in rows if 'caught**' in r and 'missed**' not in r)
 text="Each row is one change written by a fresh sub-agent that saw only the property text (never /verif), confirmed by me in a scratch worktree\n(`tools/seed_confirm.sh`: the repository's full suite passes with the patch, the author's demonstration fails with it and passes without it), stored under\n`seeded/<property>-<n>/` (patch.diff, demo/, meta.json, runs.jsonl) and then applied to /repo, checked (`tools/seed_run.sh`) and reverted.\n\n"
-text+=f"{len(rows)} changes in three rounds, {caught} caught after the strengthening described below the table: {own} by the check of the property they were written against, {caught-own} by the check of the neighbouring property they actually break (the row says which and why).\n\n"
+text+=f"{len(rows)} changes in four rounds, {caught} caught after the strengthening described below the table: {own} by the check of the property they were written against, {caught-own} by the check of the neighbouring property they actually break (the row says which and why).\n\n"
 text+="| change | what was changed | needs | outcome |\n|---|---|---|---|\n"+"\n".join(rows)+"\n"
 text+="""
 **First pass: 28 of 40 caught.**  What the twelve misses showed, and what was changed (each change was then re-run against the seeded change *and* against the unchanged tree at several seeds):
@@ -112,7 +112,11 @@ After strengthening: 100 of 100 caught.
 | C19-5 | the change is in the *memory* of the configuration fingerprint across passes, which no single parse/serialise observes | nothing to add to C19: the C10 histories (configuration changed, then changed back) report stale outputs |
 | C20-5 | the change is in the serialiser: rule filters do not reach the fingerprint | nothing to add to C20, whose single runs are unaffected: C19's distinguishability check reports `indistinguishable:..:differ[skip_files]` |
 
-After strengthening: 120 of 120 caught.  The three rounds say the same thing: every monitor catches what its workload contains, roughly 40 % of independently
+**Fourth round** (`<property>-7`; written in the last session with the monitors as they stood, no strengthening in between): every change of this round was reported by the quick tier of the check of its own property on the first pass
+(C02-7: unary operand parenthesised by the generator and then a `(`-statement, `dense:different-tree`; C05-7: `./`-spelled alias gives one file two bundle keys, `result`; C13-7: re-parse precision check skipped for recorded exponents 0..22, `number:dense:decimal:wrong-value`; C16-7: `local a = 1, g()` merged with the next `local`, `trace|group_local_assignment|local_with_more_values_than_names_followed_by_local`; the other rows numbered 7 read the same way in the table).
+These shapes were in the workloads because earlier rounds or genuine findings had put them there (the `./` key of C05 and the more-values-than-names declaration of C16 are both repaired defects whose witnesses stayed as generator blocks).
+
+After strengthening: all caught (see the count above the table).  The rounds say the same thing: every monitor catches what its workload contains, roughly 40 % of independently
 chosen shapes were missing at the time they were tried, and the misses cluster in input *shapes* (a rule option, a position, a file layout) rather than in the oracles — the only
 oracle-level corrections were the too-broad tolerances (C10, C15), the reference run trusted for what counts as faulty (C11) and the confirmation step that dropped history-dependent failures.  The same caveat as for every sampled monitor applies: a seeded change is caught when the workload holds the shape it needs; the two rounds show that about a third of independently chosen shapes were missing at first, so more remain.  A change being caught by the check of *its* property is the minimum asked; several are also visible to neighbouring checks (the scope-visitor change of C01-2 / C09-2 to C01, C09, C16; the generator newline-counting change of C03-1 / C04-2 to C03 and C04; the string-form change of C02-2 / C14-1 to C02, C13, C14), which was not measured systematically.
 """
